@@ -146,6 +146,22 @@ Reinsert(rt, h, orph) ==
     ELSE LET t == TreeIns(rt, h, Ent(MBR(orph[1].es), orph[1], 0), orph[1].level + 1) IN
          IF ~t.ok THEN t ELSE Reinsert(t.root, t.height, Tail(orph))
 
+(* when every branch of the root was removed on the way up, nothing is left to hang the orphans under: the tree starts over
+   with an empty leaf root and the objects of the orphans are inserted again one by one (orphans in order, each depth first) *)
+RECURSIVE ObjEntries(_)
+RECURSIVE ObjEntriesFrom(_, _)
+ObjEntriesFrom(n, i) == IF i > Len(n.es) THEN <<>>
+                        ELSE (IF n.leaf THEN <<Ent(n.es[i].bb, Nil, n.es[i].obj)>>
+                              ELSE IF n.es[i].ch = Nil THEN <<>> ELSE ObjEntries(n.es[i].ch)) \o ObjEntriesFrom(n, i + 1)
+ObjEntries(n) == ObjEntriesFrom(n, 1)
+RECURSIVE AllObjEntries(_, _)
+AllObjEntries(orph, i) == IF i > Len(orph) THEN <<>> ELSE ObjEntries(orph[i]) \o AllObjEntries(orph, i + 1)
+RECURSIVE ReinsertObjs(_, _, _)
+ReinsertObjs(rt, h, es) ==
+    IF Len(es) = 0 THEN [root |-> rt, height |-> h, ok |-> TRUE]
+    ELSE LET t == TreeIns(rt, h, es[1], 1) IN
+         IF ~t.ok THEN t ELSE ReinsertObjs(t.root, t.height, Tail(es))
+
 (* the two public mutators as functions on (root, height); found = Delete's return value *)
 DoInsert(rt, h, o, B) == TreeIns(rt, h, Ent(B[o], Nil, o), 1)
 DoDelete(rt, h, o, B) ==
@@ -153,7 +169,9 @@ DoDelete(rt, h, o, B) ==
         found == p # <<0>> /\ HasObj(At(rt, p), o)
     IN IF ~found THEN [root |-> rt, height |-> h, ok |-> TRUE, found |-> FALSE]
        ELSE LET r == DelRec(rt, p, o)
-                t == Reinsert(r[1], h, r[2])
+                t == IF ~r[1].leaf /\ Len(r[1].es) = 0 /\ Len(r[2]) > 0
+                     THEN ReinsertObjs(Leaf(<<>>), 1, AllObjEntries(r[2], 1))
+                     ELSE Reinsert(r[1], h, r[2])
                 collapse == t.ok /\ ~t.root.leaf /\ Len(t.root.es) = 1
                 drained == t.ok /\ ~t.root.leaf /\ Len(t.root.es) = 0
             IN [root |-> IF collapse THEN t.root.es[1].ch ELSE IF drained THEN Leaf(<<>>) ELSE t.root,
